@@ -273,6 +273,13 @@ func doltCommit(ctx *sql.Context,
 		}
 	}
 
+	// The staged root is what becomes the new commit. It can differ from the one the session asked to commit
+	// because of the working set merge in doCommit and the HEAD merge above, and only the working root has been
+	// validated so far.
+	if err := tx.validateMergedStagedRoot(ctx, commit.Roots.Staged, pending.Roots.Staged); err != nil {
+		return nil, nil, err
+	}
+
 	workingSet = workingSet.ClearMerge()
 
 	name, email, _, _, err := ResolveNameEmail(ctx, DoltCommitterName, DoltCommitterEmail)
@@ -822,6 +829,59 @@ func (tx *DoltTransaction) validateWorkingSetForCommit(ctx *sql.Context, working
 
 			return tx.rollbackAndErr(ctx, fmt.Errorf("%s%s%s", ErrUnresolvedConstraintViolationsCommit, ConstraintViolationsListPrefix, messageBuilder.String()))
 		}
+	}
+
+	return nil
+}
+
+// validateMergedStagedRoot rejects a Dolt commit whose staged root picked up data conflicts or constraint violations
+// from the merges performed while committing the transaction. |requested| is the staged root the session asked to
+// commit, |merged| is the one about to be written. Conflicts and violations that |requested| already had were
+// accepted (or refused) when the pending commit was built and are not judged again here. The transaction is rolled
+// back before an error is returned.
+func (tx *DoltTransaction) validateMergedStagedRoot(ctx *sql.Context, requested, merged doltdb.RootValue) error {
+	if requested == nil || merged == nil || rootsEqual(requested, merged) {
+		return nil
+	}
+
+	forceTransactionCommit, err := ctx.GetSessionVariable(ctx, ForceTransactionCommit)
+	if err != nil {
+		return err
+	}
+	if forceTransactionCommit.(int8) == 1 {
+		return nil
+	}
+
+	hadConflicts, err := doltdb.HasConflicts(ctx, requested)
+	if err != nil {
+		return err
+	}
+	hasConflicts, err := doltdb.HasConflicts(ctx, merged)
+	if err != nil {
+		return err
+	}
+	if hasConflicts && !hadConflicts {
+		return tx.rollbackAndErr(ctx, retryTransactionError(""))
+	}
+
+	hadViolations, err := doltdb.HasConstraintViolations(ctx, requested)
+	if err != nil {
+		return err
+	}
+	hasViolations, err := doltdb.HasConstraintViolations(ctx, merged)
+	if err != nil {
+		return err
+	}
+	if hasViolations && !hadViolations {
+		tablesWithViolations, err := doltdb.TablesWithConstraintViolations(ctx, merged)
+		if err != nil {
+			return err
+		}
+		names := make([]string, len(tablesWithViolations))
+		for i, tableName := range tablesWithViolations {
+			names[i] = tableName.String()
+		}
+		return tx.rollbackAndErr(ctx, fmt.Errorf("%s%s%s", ErrUnresolvedConstraintViolationsCommit, ConstraintViolationsListPrefix, strings.Join(names, ", ")))
 	}
 
 	return nil
